@@ -1,5 +1,7 @@
 mod c04;
 mod coqfmt;
+mod cw20;
+mod world;
 mod rng;
 mod shard;
 
@@ -28,6 +30,7 @@ fn main() {
     fs::create_dir_all(&out).unwrap();
     match family {
         "c04" => run_c04(mode, seed, count, &out, shard_size, &args),
+        "cw20" => run_cw20(mode, seed, count, &out, shard_size, &args),
         _ => {
             eprintln!("unknown family {}", family);
             std::process::exit(2);
@@ -60,7 +63,7 @@ fn run_c04(mode: &str, seed: u64, count: usize, out: &PathBuf, shard_size: usize
         _ => panic!("mode"),
     };
     let items: Vec<String> = cases.iter().map(c04::to_coq).collect();
-    let names = shard::write_list_shards(out, "c04", c04::COQ_HEADER, "c04_case", "check_c04_all", &items, shard_size);
+    let names = shard::write_list_shards(out, "c04", c04::COQ_HEADER, "c04_case", &["check_c04_all".to_string()], &items, shard_size);
     let mut jf = fs::File::create(out.join("cases.jsonl")).unwrap();
     let mut classes: BTreeMap<String, u64> = BTreeMap::new();
     for c in &cases {
@@ -73,4 +76,36 @@ fn run_c04(mode: &str, seed: u64, count: usize, out: &PathBuf, shard_size: usize
     });
     fs::write(out.join("stats.json"), serde_json::to_string_pretty(&stats).unwrap()).unwrap();
     println!("{} cases, {} shards, {} classes", cases.len(), names.len(), classes.len());
+}
+
+fn run_cw20(mode: &str, seed: u64, count: usize, out: &PathBuf, shard_size: usize, args: &[String]) {
+    let max_steps: usize = arg(args, "--steps").and_then(|s| s.parse().ok()).unwrap_or(40);
+    let rans: Vec<cw20::Ran> = match mode {
+        "gen" => (0..count as u64).map(|c| cw20::generate(seed, c, max_steps)).collect(),
+        "replay" => {
+            let f = arg(args, "--file").expect("--file");
+            let text = fs::read_to_string(f).unwrap();
+            text.lines()
+                .filter(|l| l.trim_start().starts_with('{'))
+                .map(|l| cw20::replay(&serde_json::from_str::<cw20::Trace>(l).unwrap()))
+                .collect()
+        }
+        _ => panic!("mode"),
+    };
+    let items: Vec<String> = rans.iter().map(cw20::to_coq).collect();
+    let fns: Vec<String> = ["1", "2", "13", "19"].iter().map(|p| format!("check_traces {}", p)).collect();
+    let names = shard::write_list_shards(out, "cw20", cw20::COQ_HEADER, "trace", &fns, &items, shard_size);
+    let mut jf = fs::File::create(out.join("cases.jsonl")).unwrap();
+    let mut steps = 0usize;
+    for r in &rans {
+        writeln!(jf, "{}", serde_json::to_string(&r.trace).unwrap()).unwrap();
+        steps += r.results.len();
+    }
+    let classes = cw20::class_counts(&rans);
+    let stats = serde_json::json!({
+        "family": "cw20", "mode": mode, "seed": seed, "cases": rans.len(), "steps": steps,
+        "shards": names, "classes": classes, "evals": ["C01", "C02", "C13", "C19"],
+    });
+    fs::write(out.join("stats.json"), serde_json::to_string_pretty(&stats).unwrap()).unwrap();
+    println!("{} traces, {} steps, {} shards, {} classes", rans.len(), steps, names.len(), classes.len());
 }
